@@ -27,4 +27,35 @@ MCRecallMenu ==
 MCRecallMenuSmall == { <<>>, <<Fin(<<Emit3>>)>>, <<[t |-> "call", c |-> FALSE], Fin(<<Emit3>>)>> }
 
 MCMatchArms == { <<>>, <<Fin(<<Emit1>>)>>, <<[t |-> "check", c |-> FALSE, e |-> "panic"]>> }
+
+(* Simulation (tlc -simulate): random derivations for bounds whose exhaustive enumeration is
+   too large (<= 4 statements, nesting 2: 307 704 programs).  Every step of a trace draws one
+   fresh program; each random choice is bound by a singleton-set quantifier so that it is
+   evaluated exactly once.  The drawn programs satisfy WellFormed (checked) and are judged by
+   the same Run / Compile / VmRun definitions. *)
+Pick(S) == CHOOSE x \in S : TRUE
+RECURSIVE RandBlock(_, _, _)
+RandStmt(n, d) ==
+  Pick(UNION {
+    IF k <= 4 \/ d = 0 \/ n < 2 THEN {RandomElement(Simple)}
+    ELSE IF k <= 8 THEN
+      UNION {{[t |-> "if", c |-> c, a |-> a, b |-> b, els |-> b # <<>>] :
+                 c \in {RandomElement(BOOLEAN)}, b \in {RandBlock(n - 1 - SizeB(a), d - 1, FALSE)}} :
+              a \in {RandBlock(n - 1, d - 1, TRUE)}}
+    ELSE LET ms == Matches(n) IN IF ms = {} THEN {RandomElement(Simple)} ELSE {RandomElement(ms)}
+    : k \in {RandomElement(1..10)}})
+RandBlock(n, d, nonempty) ==
+  IF n <= 0 THEN <<>>
+  ELSE Pick(UNION {
+    IF k = 1 /\ ~nonempty THEN {<<>>}
+    ELSE IF k <= 2 THEN {<<RandomElement(Finishes)>>}
+    ELSE UNION {{<<s>> \o rest : rest \in {RandBlock(n - SizeS(s), d, FALSE)}} : s \in {RandStmt(n, d)}}
+    : k \in {RandomElement(1..10)}})
+RandProgram(prev) ==      \* the parameter only keeps TLC from treating this as a constant to precompute
+  Pick(UNION {{[policy |-> p, recall |-> r] :
+                 r \in {IF CanRecallB(p) THEN RandomElement(RecallMenu) ELSE <<>>}} :
+              p \in {RandBlock(MaxStmts, MaxDepth, FALSE)}})
+SimInit == prog = [policy |-> <<>>, recall |-> <<>>]
+SimNext == prog' = RandProgram(prog)
+SimSpec == SimInit /\ [][SimNext]_prog
 ===============================================================================
